@@ -124,9 +124,9 @@ func (x *Exec) doCallVals(st *State, fr *Frame, cc *ssa.CallCommon, fnv Val, arg
 	}
 	// repository function
 	c := x.contracts[fnName(callee)]
-	// (a recursive call of the unit under verification also goes through its contract: partial
-	// correctness; this is what makes an inductive lemma function possible)
-	if c != nil && !c.Inline || c != nil && c.Trusted {
+	// (a recursive call of a lemma function goes through its own contract: partial correctness;
+	// this is what makes an inductive lemma function possible. Library functions do not recurse.)
+	if c != nil && !c.Inline && (callee != x.unit || isLemmaUnit(fnName(callee))) || c != nil && c.Trusted {
 		x.callByContract(st, fr, callee, c, bind, args, instr, k)
 		return
 	}
